@@ -57,3 +57,6 @@ def run(ctx):
     V7E.v10_param_map(ctx)
     ctx.floor("V3", 9)
     ctx.floor("V10", 3)
+    from ..engines import mapplumbing as M2B
+    M2B.m2b_reverse_rule_children(ctx)
+    ctx.floor("M2", 2)
